@@ -4,7 +4,7 @@
 From Coq Require Import List NArith Bool.
 From Coq Require String.
 Import String.StringSyntax.
-From Sccache Require Import Base.Sx Model.Paths Proofs.Paths.
+From Sccache Require Import Base.Sx Model.Paths Proofs.Paths Model.C19Docker Proofs.C19Docker.
 Import ListNotations.
 Local Open Scope N_scope.
 
@@ -168,6 +168,28 @@ Theorem C19_job_view_independent_of_history :
 Proof. exact run_view_independent. Qed.
 Print Assumptions C19_job_view_independent_of_history.
 
+(* Docker builder: the container made from the toolchain image IS the unpacked toolchain later jobs get.  For ALL
+   `docker diff` texts and ALL dockers (the second diff as any function of the paths removed): clean_container
+   lets a container back into the pool only if every line of its diff is an addition (`A`) or is about /tmp -
+   nothing changed, nothing deleted -, every path it removed is the path of such an `A` line, and the diff taken
+   after the removals is empty or exactly "C /tmp". *)
+Theorem C19_docker_pool_only_additions :
+  forall diff docker rms,
+    clean_container diff docker = (rms, true) ->
+    Forall line_ok (match diff with [] => [] | _ => split_by NL diff end)
+    /\ (forall p, In p rms -> exists l, In l (split_by NL diff) /\ split_first_space l = (s_A, Some p))
+    /\ (diff = [] \/ docker rms = [] \/ docker rms = s_C_tmp).
+Proof. exact clean_container_sound. Qed.
+Print Assumptions C19_docker_pool_only_additions.
+
+(* whether or not the container is kept, the only paths clean_container ever removes in it are paths of `A` lines *)
+Theorem C19_docker_removes_added_only :
+  forall diff docker rms ok,
+    clean_container diff docker = (rms, ok) ->
+    forall p, In p rms -> exists l, In l (split_by NL diff) /\ split_first_space l = (s_A, Some p).
+Proof. exact clean_container_removes_added_only. Qed.
+Print Assumptions C19_docker_removes_added_only.
+
 (* std::path: Path::join on bytes is the component-level join *)
 Theorem C19_components_join : forall p q, components (push p q) = join_c (components p) (components q).
 Proof. exact components_push. Qed.
@@ -200,6 +222,17 @@ Proof. vm_compute. reflexivity. Qed.
 
 Example ex_bad_ids :
   map valid_id [bs ""; bs "a"; bs "../x"; bs "/etc/cron.d/x"; bs "AB12"; bs "ab"] = [false; false; false; false; false; true].
+Proof. vm_compute. reflexivity. Qed.
+
+(* the job that rewrites /bin/cc and leaves /bin/cc.orig beside it does not get its container back into the pool;
+   an ordinary job's additions are removed (component-wise: /ab is not below /a) and it does *)
+Example ex_docker_tampered :
+  clean_lines [bs "C /bin"; bs "C /bin/cc"; bs "A /bin/cc.orig"]
+  = ([], false, [bs "C /bin"; bs "C /bin/cc"; bs "A /bin/cc.orig"]).
+Proof. vm_compute. reflexivity. Qed.
+Example ex_docker_ordinary :
+  clean_lines [bs "A /a"; bs "A /a/b"; bs "A /ab"; bs "C /tmp"; bs "A /tmp/x"]
+  = ([bs "/a"; bs "/ab"; bs "/tmp/x"], true, [bs "C /tmp"]).
 Proof. vm_compute. reflexivity. Qed.
 
 Example ex_prepare :
